@@ -291,8 +291,6 @@ def case_pop(B, cfg):
                     continue
                 z = Sym.var(names[0])
                 a, b = rng.draws[names[0]].info
-                a = _cell(a, d)
-                b = _cell(b, d)
                 B.fact('%s: upper truncation at +inf' % label,
                        isinstance(b, float) and b == math.inf, repr(b))
                 scale = B.diff(s, z)
